@@ -9,7 +9,7 @@ parameter (unbounded integer) and the delay (real >= 0) of the sent events, guar
 Oracle: deliveries are logged at the targets' queue() (subclass) and at the callables; per sender macro
 step the delivery log must equal [sent internal events] x [targets bound at that moment, in binding order]
 as plain external Events with equal name and data (delay included), nothing for notify or consumed
-events, nothing after a detach; the sender consumes its own copy as an InternalEvent.
+events (user meta-events named like the forwarded one included), nothing after a detach; the sender consumes its own copy as an InternalEvent.
 """
 from ..symex import Eq, And, is_sym
 from .c09 import same_values
